@@ -62,7 +62,7 @@ func buildStepModel(p *core.Program, rel, ctrlName, typ string) *setupModel {
 			return
 		}
 		f := core.Callee(i)
-		if f == nil || f.Signature.Recv() == nil || !core.TypeIs(f.Signature.Recv().Type(), typ) {
+		if f == nil || !core.TypeIs(recvType(f), typ) {
 			return
 		}
 		if f.Signature.Results().Len() != 2 { // step handlers return (Container, error)
@@ -307,8 +307,8 @@ func c02r3(c *core.Ctx) {
 
 // recvType returns the receiver type of a method, or an invalid type for plain functions.
 func recvType(f *ssa.Function) types.Type {
-	if f != nil && f.Signature.Recv() != nil {
-		return f.Signature.Recv().Type()
+	if t := core.Active.RecvOf(f); t != nil {
+		return t
 	}
 	return types.Typ[types.Invalid]
 }
